@@ -273,8 +273,18 @@ def analyze(ctx, want):
     ex, paths = run_fn(ap, F, BaseModel())
     okap = False
     for p in paths:
-        for c in p.calls(r"Vec::<.*NfaState>::append$"):
-            okap = "self.states" in S.vstr(c[3][0]) and "nfa" in S.vstr(c[3][1])
+        # `self.states.append(&mut nfa.states)` / `self.states.extend(nfa.states)` / `extend_from_slice(&nfa.states)`: the operand's
+        # whole state vector, in order, behind the receiver's
+        for c in p.calls(r"Vec::<.*NfaState>::(append|extend_from_slice)$|iter::Extend<.*NfaState>>::extend(::<.*>)?$"):
+            def plain(v):
+                t_ = S.vstr(v)
+                while True:
+                    t2 = re.sub(r"^(&|mut:|\*)+", "", t_)
+                    t2 = re.sub(r"^(?:AsMut>::as_mut|AsRef>::as_ref|Vec::as_mut_slice|Vec::as_slice|DerefMut>::deref_mut|Deref>::deref)\((.*)\)$", r"\1", t2)
+                    if t2 == t_:
+                        return t_
+                    t_ = t2
+            okap = plain(c[3][0]) == "self.states" and plain(c[3][1]) == "nfa.states"
     ob("C02.b", "append-moves-all-operand-states", okap, "Vec::append(self.states, nfa.states)", ap.loc())
     ns = F.fn(r"internal::nfa::Nfa::new_state$")
     ex, paths = run_fn(ns, F, BaseModel(), inline=r"Nfa::add_state$|NfaState::new$|ids::StateID::new$")
